@@ -20,7 +20,7 @@ EXHAUSTIVE = {"quick": True, "thorough": True}
 NSHARDS = {"quick": 4, "thorough": 8}
 THRESHOLDS = {"quick": {"c14:positions": 4096, "c14:ids": 4096, "c14:unknown-id": 10, "c14:unknown-id-forms": 60, "c14:unknown-token": 20,
                         "c14:random-seq": 500, "c14:legacy-vocab": 450, "c14:legacy-vocab:descending": 150, "c14:legacy-vocab:random": 150, "c14:prefix-pairs": 1225, "c14:legacy-unknown": 100,
-                        "c14:legacy-codec": 450, "c14:deprecated-special-token-lookups": 8, "c14:legacy-rejudged-after-views": 450, "c14:legacy-resized-object": 250, "c14:cf-perm": 50}}
+                        "c14:legacy-codec": 450, "c14:deprecated-special-token-lookups": 8, "c14:legacy-rejudged-after-views": 450, "c14:legacy-resized-object": 250, "c14:asked-again-after-caller-edited-the-answer": 300, "c14:history:non-integer-coordinates-stringified": 500, "c14:cf-perm": 50}}
 THRESHOLDS["thorough"] = dict(THRESHOLDS["quick"])
 ANCHORS = ["maze_dataset.utils:corner_first_ndindex",
            "maze_dataset.tokenization.maze_tokenizer:MazeTokenizer._token_arr",
@@ -138,6 +138,16 @@ def run(ctx):
             ctx.check(tok.encode(toks) == ids, "C14/encode-wrong", f"{toks[:10]}", dict(ids=ids))
             ctx.check(tok.encode(" ".join(toks)) == ids, "C14/encode-joined-wrong", f"{toks[:10]}", dict(ids=ids))
             ctx.check(tok.decode(ids, joined_tokens=True) == " ".join(toks), "C14/decode-joined-wrong", "", dict(ids=ids))
+            if j % 3 == 0 and ids:
+                # what encode / decode hand back belongs to the caller: padding or trimming it in place, then asking again
+                for how, call in (("encode(list)", lambda: tok.encode(toks)), ("encode(joined)", lambda: tok.encode(" ".join(toks))), ("decode", lambda: tok.decode(ids))):
+                    first = call()
+                    if isinstance(first, list):
+                        first.insert(0, first[-1]); first.extend(first[:3]); del first[1]
+                    again = call()
+                    ctx.tally("c14:asked-again-after-caller-edited-the-answer")
+                    ctx.check(list(again) == (ids if how.startswith("encode") else toks), "C14/answer-depends-on-what-the-caller-did-with-an-earlier-answer",
+                              f"{how}: the second call returned {list(again)[:8]}... ({len(again)} items), expected {len(ids)} items", dict(ids=ids, how=how))
             for dt in (np.int64, np.int32, np.int16, np.uint16):
                 arr = np.array(ids, dtype=dt)
                 ctx.check(tok.decode(arr) == toks, "C14/decode-ndarray-wrong", f"dtype {np.dtype(dt)}", dict(ids=ids))
@@ -253,6 +263,33 @@ def run(ctx):
                     ctx.tally("c14:deprecated-special-token-lookups")
                 except Exception:  # noqa: BLE001
                     ctx.tally("c14:deprecated-lookup-rejected(not judged)")
+    if ctx.shard % 3 == 1:
+        # history: coordinates of other numeric types (a model's rounded float predictions, booleans, numpy scalars) turned into
+        # coordinate strings through the library before any legacy vocabulary is built; nothing built afterwards may differ
+        import warnings as _w2
+        from maze_dataset import token_utils as _tu
+        with _w2.catch_warnings():
+            _w2.simplefilter("ignore")
+            r_h = ctx.sub_rng("float-coords")
+            for _ in range(200):
+                n_h = int(r_h.integers(1, 51))
+                c = r_h.integers(0, n_h, size=2)
+                forms = [c.astype(np.float64), c.astype(np.float32), np.round(c + r_h.random(2) * 0.2 - 0.1), c.astype(bool) if n_h <= 2 else c.astype(np.float16), tuple(float(x) for x in c)]
+                for f in forms:
+                    for fn_name in ("_coord_to_strings_UT", "_coord_to_strings_indexed"):
+                        fn = getattr(_tu, fn_name, None)
+                        if fn is None:
+                            continue
+                        try:
+                            fn(f)
+                            ctx.tally("c14:history:non-integer-coordinates-stringified")
+                        except Exception:  # noqa: BLE001
+                            ctx.tally("c14:history:non-integer-coordinate-rejected(not judged)")
+                try:
+                    MazeTokenizer(tokenization_mode=TokenizationMode.AOTP_UT_uniform, max_grid_size=None).coords_to_strings([forms[0], forms[2]])
+                    ctx.tally("c14:history:non-integer-coordinates-stringified")
+                except Exception:  # noqa: BLE001
+                    ctx.tally("c14:history:non-integer-coordinate-rejected(not judged)")
     modes = list(TokenizationMode)
     mine_pairs = [(mode, n) for mi, mode in enumerate(modes) for n in range(1, 51) if ctx.mine(mi * 50 + n)]
     for order_tag in ("ascending", "descending", "random"):
